@@ -32,6 +32,8 @@ def _work(idx_list: List[int]):
         return ("error", f"{exc} (while analysing skeleton {fam[i].label!r})", stats)
     except RecursionError as exc:
         return ("error", f"recursion limit (skeleton {fam[i].label!r})", stats)
+    from .absint import TRUNCATED
+    stats["truncated"] = len(TRUNCATED)
     return ("ok", out, stats)
 
 
@@ -54,13 +56,16 @@ def family_results(ctx, tags=None, jobs: Optional[int] = None) -> Tuple[List[Res
     else:
         parts = [_work(c) for c in chunks]
     out: List[Result] = []
-    stats = {"skeletons": 0, "paths": 0, "nodes": 0}
+    stats = {"skeletons": 0, "paths": 0, "nodes": 0, "truncated": 0}
     for kind, payload, st in parts:
         for k in stats:
-            stats[k] += st[k]
+            stats[k] += st.get(k, 0)
         if kind == "error":
             raise AnalysisError(str(payload))
         out.extend(payload)  # type: ignore[arg-type]
+    if stats["truncated"]:
+        from .absint import TRUNCATED
+        TRUNCATED.append("a skeleton exploration was stopped at the path limit")
     return out, stats
 
 
